@@ -19,6 +19,7 @@ from electrumx.server.db import DB                                  # noqa: E402
 from electrumx.server.env import Env                                # noqa: E402
 from electrumx.server import daemon as daemon_mod                   # noqa: E402
 from electrumx.lib import util as util_mod                          # noqa: E402
+from electrumx.server import storage as storage_mod                # noqa: E402
 
 
 def make_coin(activation=4, prefetch=4):
@@ -422,9 +423,41 @@ def diff(obs, model, parts=('utxo', 'history', 'chain', 'raw')):
     return d
 
 
+# Leak guard.  A case that fails half-way (a seeded defect killing the block processor inside a
+# helper, say) can leave a LevelDB handle open; Hypothesis keeps the exception - and through its
+# traceback the handle - alive, and the next case re-creating the same directory would then fail with
+# "lock ...: already held by process", i.e. flakily.  Every LevelDB the harness or electrumx opens is
+# recorded; fresh_dir closes what is still open underneath the directory it re-creates.
+_OPEN_HANDLES = []
+LEAKED_HANDLES_CLOSED = [0]
+_real_leveldb_open = storage_mod.LevelDB.open
+
+
+def _tracking_open(self, name, create):
+    _real_leveldb_open(self, name, create)
+    _OPEN_HANDLES.append((os.path.abspath(name), self.db))
+
+
+storage_mod.LevelDB.open = _tracking_open
+
+
+def close_leaked_handles(path):
+    keep = []
+    for p, db in _OPEN_HANDLES:
+        if db.closed:
+            continue
+        if p == path or p.startswith(path + os.sep):
+            db.close()
+            LEAKED_HANDLES_CLOSED[0] += 1
+        else:
+            keep.append((p, db))
+    _OPEN_HANDLES[:] = keep
+
+
 def fresh_dir(scratch, name='db'):
     path = os.path.join(scratch, name)
     os.chdir(VERIF_DIR)
+    close_leaked_handles(os.path.abspath(path))
     shutil.rmtree(path, ignore_errors=True)
     os.makedirs(path)
     return path
